@@ -41,6 +41,22 @@ func main() {
 			c, out := runHubCase(*seed*1000003+uint64(i), *nops, *hostile, *gov, stats)
 			fmt.Fprintf(w, "hub\t%s\t%s\n", Str(c), Str(out))
 		}
+	case "ckpt":
+		for i := 0; i < *n; i++ {
+			if *only >= 0 && i != *only {
+				continue
+			}
+			c, out := runCkptCase(*seed*1000003 + uint64(i))
+			fmt.Fprintf(w, "ckpt\t%s\t%s\n", Str(c), Str(out))
+		}
+	case "sig":
+		for i := 0; i < *n; i++ {
+			if *only >= 0 && i != *only {
+				continue
+			}
+			c, out := runSigCase(*seed*1000003 + uint64(i))
+			fmt.Fprintf(w, "sig\t%s\t%s\n", Str(c), Str(out))
+		}
 	case "sigset":
 		for i := 0; i < *n; i++ {
 			if *only >= 0 && i != *only {
